@@ -505,6 +505,7 @@ type Clause struct {
 
 type LoopSpec struct {
 	Invariants []Clause
+	Each       []Clause // per-iteration postconditions (see execLoop)
 	Unroll     int
 	Decreases  *Clause
 }
@@ -746,6 +747,17 @@ func (sp *Specs) loadSpecFile(path, pkgPath string) error {
 					c.Label = fmt.Sprintf("inv%d", len(ls.Invariants))
 				}
 				ls.Invariants = append(ls.Invariants, c)
+			case "each":
+				// per-iteration postcondition: proved at the end of the body of an arbitrary iteration (also on
+				// `continue` paths); before(e) is e at the start of that iteration
+				c, err := mkClause(r2, rc.line)
+				if err != nil {
+					return err
+				}
+				if c.Label == "" {
+					c.Label = fmt.Sprintf("each%d", len(ls.Each))
+				}
+				ls.Each = append(ls.Each, c)
 			case "unroll":
 				n, err := strconv.Atoi(r2)
 				if err != nil {
@@ -961,6 +973,9 @@ func (ct *Contract) text() string {
 	}
 	for _, ls := range ct.Loops {
 		for _, c := range ls.Invariants {
+			b.WriteString(c.Src + "\n")
+		}
+		for _, c := range ls.Each {
 			b.WriteString(c.Src + "\n")
 		}
 	}
